@@ -227,7 +227,10 @@ class Canon:
         return terms[0] if len(terms) == 1 else ("and", tuple(terms))
 
     def c_IfExp(self, e):
-        return ("ifexp", self(e.test), self(e.body), self(e.orelse))
+        t, a, b = self(e.test), self(e.body), self(e.orelse)
+        while isinstance(t, tuple) and t and t[0] == "not" and len(t) == 2:
+            t, a, b = t[1], b, a  # (x if not c else y) is (y if c else x)
+        return ("ifexp", t, a, b)
 
     # positional parameters of a few standard-library constructors: positional and keyword spellings coincide
     SIGNATURES = {
@@ -244,6 +247,11 @@ class Canon:
         if sig is not None and len(args) <= len(sig) and not any(isinstance(a, ast.Starred) for a in e.args) and all(k.arg for k in e.keywords):
             kws = list(zip(sig, args)) + kws
             args = ()
+        # partial(g, *a, **k)(*b, **kw)  is  g(*a, *b, **k, **kw)   (functools.partial / toolz curry applied at once)
+        if f[0] == "call" and f[1] in (("name", "partial"), ("name", "curry"), ("attr", ("name", "functools"), "partial")) and f[2]:
+            inner_kws = dict(f[3])
+            inner_kws.update(dict(kws))
+            return ("call", f[2][0], tuple(f[2][1:]) + args, tuple(sorted(inner_kws.items(), key=repr)))
         return ("call", f, args, tuple(sorted(kws, key=repr)))
 
     def c_Lambda(self, e):
